@@ -110,6 +110,12 @@ def run(ctx):
     xs = R.extended_combos(rng, 400 if ctx.quick else 12000)
     a_, b_, _ = matrix(ctx, ex, ["named_after_plain", "variant_tuple"] if ctx.quick else ["named", "tuple", "variant", "variant_tuple"], ["attr", "derive"], xs)
     n += a_; nontriv += b_
+    # the trait list split over stacked attributes (sibling written bare, with the crate path, with a leading `::`): one request, the
+    # same verdicts - a split must not let misuse through (rustc's outside-in expansion loop is emulated in-process, blayer.expand_rustc)
+    cs = rng.sample(combos, 150) if ctx.quick else combos
+    for tr in (R.CMP_TRAITS, ["PartialEq", "Hash", "Eq", "PartialOrd", "Ord"]):
+        a_, b_, _ = matrix(ctx, ex, ["named", "variant_tuple"], ["attr_split_bare", "attr_split_path", "attr_split_abs"], cs, traits=tr)
+        n += a_; nontriv += b_
     n2 = misplaced(ctx, ex)
     ex.close()
     g = glayer.run_g(ctx, G_UNITS)
